@@ -18,20 +18,14 @@ Proof. refute. Qed.
 Lemma narrow_shift_refuted : refutes src_NarrowShift tgt_NarrowShift "NarrowShift" [([("a", 139); ("b", 234)], 1%nat)].
 Proof. refute. Qed.
 
-(* <C02-boolop-value> *)
-Lemma boolop_value_refuted : refutes src_OrValue tgt_OrValue "OrValue" [([("a", 8); ("b", 14)], 1%nat)].
-Proof. refute. Qed.
-(* </C02-boolop-value> *)
+(* C02-boolop-value: repaired in /repo, switched by fixes/C02_switch.py *)
 
-(* <C02-cmp-rhs> *)
-Lemma cmp_rhs_refuted : refutes src_CmpRhs tgt_CmpRhs "CmpRhs" [([("a", 13); ("b", 0)], 1%nat)].
-Proof. refute. Qed.
-(* </C02-cmp-rhs> *)
+(* C02-cmp-rhs: repaired in /repo, switched by fixes/C02_switch.py *)
+(* the repaired transpiler's output for the former witness class is accepted by the validator (hence correct by C02_block_sound) *)
+Lemma cmp_rhs_repaired : match tgt_CmpRhs with m :: _ => tv_block src_CmpRhs m = true | [] => False end.
+Proof. vm_compute. reflexivity. Qed.
 
-(* <C02-portname> *)
-(* port named after the attribute: the text does not even elaborate (undeclared identifier), so it is rejected *)
-Lemma portname_refuted :
-  (exists e, elaborate tgt_PortName 200 "PortName" = inl e) /\
-  match tgt_PortName with m :: _ => tv_block src_PortName m = false | [] => False end.
-Proof. split; [eexists; vm_compute; reflexivity | vm_compute; reflexivity]. Qed.
-(* </C02-portname> *)
+(* C02-portname: repaired in /repo, switched by fixes/C02_switch.py *)
+(* the repaired transpiler's output for the former witness class is accepted by the validator (hence correct by C02_block_sound) *)
+Lemma portname_repaired : match tgt_PortName with m :: _ => tv_block src_PortName m = true | [] => False end.
+Proof. vm_compute. reflexivity. Qed.
